@@ -21,10 +21,10 @@ def _digest_task(arg):
 
 
 def _digests(props, seeds, workers):
-    os.environ["VERIF_WORKERS"] = str(workers)
     args = [(p, s) for p in props for s in seeds]
     out = {}
-    for (a, st, pl) in core.run_pool(_digest_task, args, workers=workers, task_timeout=600):
+    recycle = any(getattr(__import__("sim.runner", fromlist=["x"]).machine_for(p), "RECYCLE_WORKERS", False) for p in props)
+    for (a, st, pl) in core.run_pool(_digest_task, args, workers=workers, task_timeout=600, recycle=recycle):
         if st != "ok":
             raise HarnessError("determinism worker failed: %s %s" % (a, str(pl)[-400:]))
         out["%s:%d" % (a[0], a[1])] = (pl["digest"], pl["case"])
